@@ -15,6 +15,7 @@ import (
 
 	"verifharness/kit"
 	"verifharness/refmodel"
+	"verifharness/simnet"
 )
 
 type C16Node struct {
@@ -52,6 +53,12 @@ type C16Sc struct {
 	PauseAfter    int
 	// LoopLast: the lookup's run loop is scheduled last on every pass (see runLoopLast)
 	LoopLast bool
+	// CloseAtAnnounce: the announce is closed while an announce_peer to a node that will never answer it is
+	// outstanding (that query is given a one-hour virtual resend delay, so only the Close can end it)
+	CloseAtAnnounce bool
+	// Mapped: the simulated nodes are known by the 16-byte (v4-mapped) form of their IPv4 addresses and
+	// name each other in nodes6 in that form, as dual-stack peers do
+	Mapped bool
 }
 
 func genC16(t *rapid.T) C16Sc {
@@ -90,6 +97,8 @@ func genC16(t *rapid.T) C16Sc {
 		sc.PauseAfter = uniformInt(t, 8, "pauseafter")
 	}
 	sc.LoopLast = uniformInt(t, 4, "looplast") == 0
+	sc.CloseAtAnnounce = sc.Stop == "none" && sc.QuiescentStop == "none" && uniformInt(t, 3, "closeatannounce") == 0
+	sc.Mapped = uniformInt(t, 4, "mapped") == 0
 	return sc
 }
 
@@ -111,7 +120,14 @@ func runC16(sc C16Sc, c *kit.Case) *kit.Violation {
 	ih := arr20(sc.InfoHash)
 	var seeds []*net.UDPAddr
 	for _, s := range sc.Seeds {
-		seeds = append(seeds, c16Addr(s))
+		a := c16Addr(s)
+		if sc.Mapped {
+			a.IP = a.IP.To16()
+		}
+		seeds = append(seeds, a)
+	}
+	if sc.Mapped {
+		c.Label("v4-mapped-nodes")
 	}
 	sv := newSrv(SrvOpts{NodeID: [20]byte{0xc1, 6}, Starting: seeds})
 	defer sv.Close()
@@ -130,6 +146,16 @@ func runC16(sc C16Sc, c *kit.Case) *kit.Violation {
 		}
 	}
 	var mu sync.Mutex
+	heldG := map[int64]bool{} // sender goroutines whose query waits a virtual hour although nobody answers
+	sv.C.DelayHook = func(gid int64, matched bool) time.Duration {
+		mu.Lock()
+		h := heldG[gid]
+		mu.Unlock()
+		if h || matched {
+			return time.Hour
+		}
+		return 0
+	}
 	var responses []c16Resp // get_peers responses the harness delivered that complete their query
 	getPeersSeen := 0
 	var ann *dht.Announce
@@ -148,6 +174,15 @@ func runC16(sc C16Sc, c *kit.Case) *kit.Violation {
 				mu.Lock()
 				getPeersSeen++
 				seen := getPeersSeen
+				if runaway := 30*len(sc.Nodes) + 100; seen > runaway {
+					// a lookup over a finite network asks every address a bounded number of times
+					if violInHandler == nil {
+						violInHandler = kit.Violatef("C16:announce-never-finished", "the traversal keeps querying: %d get_peers datagrams so far in a network of %d nodes (the last to %v)", seen, len(sc.Nodes), addr)
+						simnet.Go(func() { ann.Close() })
+					}
+					mu.Unlock()
+					return nil
+				}
 				doStop := sc.Stop != "none" && !stopDone && seen == sc.StopAfter
 				if doStop {
 					stopDone = true
@@ -192,6 +227,18 @@ func runC16(sc C16Sc, c *kit.Case) *kit.Violation {
 					tok = &s
 				}
 				r := stdReturn(answerID[i], contacts, tok)
+				if sc.Mapped {
+					var b []byte
+					for _, ct := range contacts {
+						b = append(b, ct.ID[:]...)
+						b = append(b, ct.Addr.IP.To16()...)
+						b = append(b, byte(ct.Addr.Port>>8), byte(ct.Addr.Port))
+					}
+					r = r.Del("nodes")
+					if len(b) > 0 {
+						r = r.Set("nodes6", bstr(string(b)))
+					}
+				}
 				if nd.Reply == "int-token" {
 					r = r.Set("token", bint(int64(i)))
 				}
@@ -224,6 +271,17 @@ func runC16(sc C16Sc, c *kit.Case) *kit.Violation {
 				case "error":
 					return []SimReply{{Data: mkError(t, 203, "announce refused")}}
 				case "silent":
+					mu.Lock()
+					doClose := sc.CloseAtAnnounce && !stopDone
+					if doClose {
+						stopDone = true
+						heldG[q.G] = true
+					}
+					mu.Unlock()
+					if doClose {
+						c.Label("close-while-announce-peer-outstanding")
+						simnet.Go(func() { ann.Close() })
+					}
 					return nil
 				}
 				return []SimReply{{Data: mkResponse(t, stdReturn(answerID[i], nil, nil))}}
@@ -316,6 +374,12 @@ func runC16(sc C16Sc, c *kit.Case) *kit.Violation {
 	select {
 	case <-consumerDone:
 	case <-time.After(20 * time.Second):
+		mu.Lock()
+		hv := violInHandler
+		mu.Unlock()
+		if hv != nil {
+			return hv
+		}
 		if ok, who := sv.C.AllBlocked(); !ok {
 			c.Inconclusive = "announce still running after 20 s with runnable goroutines: " + who
 			return nil
